@@ -566,3 +566,52 @@ Proof.
   repeat split; try reflexivity; try (exact Eb').
   all: apply ren_noeol_id; [exact Wn|]; unfold off_ok, slen; rewrite app_length; unfold nb; rewrite !app_length; cbn [length]; lia.
 Qed.
+
+(* ---------- J (two lines) ---------- *)
+Lemma span_blank_body body : span_blank (body ++ [nlc]) = (fst (span_blank body), snd (span_blank body) ++ [nlc]).
+Proof.
+  induction body as [|c r IH]; cbn [app span_blank]; [reflexivity|].
+  destruct (is_blankc c); [|reflexivity]. rewrite IH. destruct (span_blank r) as [a z]. reflexivity.
+Qed.
+Lemma refines_J rows e cnt e1 body1 body2 :
+  let b := s_buf e in let s := s_vs e in
+  buf_wf b -> cursor_ok b (v_row s) (v_off s) ->
+  getl b (v_row s) = Some (body1 ++ [nlc]) -> getl b (v_row s + 1) = Some (body2 ++ [nlc]) -> 0 <= cnt <= 2 ->
+  exec1 rows (CJoin cnt) e = Some e1 ->
+  let rest := snd (span_blank body2) in
+  let nb := body1 ++ repeat [32%N] (join_spaces body1 (rest ++ [nlc])) ++ rest in
+  s_buf e1 = set_row b (v_row s) [nb ++ [nlc]] 2 /\ s_regs e1 = s_regs e /\
+  v_row (s_vs e1) = v_row s /\ v_off (s_vs e1) = ren_noeol (Some (nb ++ [nlc])) (slen body1).
+Proof.
+  intros b s HW Hc El1 El2 Hn X rest nb.
+  assert (Hr : 0 <= v_row s /\ v_row s + 1 < blen b) by (apply getl_some in El1; apply getl_some in El2; lia).
+  pose proof (wf_body body1 (getl_wf _ _ _ HW El1)) as Hb1. pose proof (wf_body body2 (getl_wf _ _ _ HW El2)) as Hb2.
+  cbn [exec1] in X. unfold exec_join in X. fold b s in X.
+  assert (Ec : (if cnt <=? 1 then 2 else cnt) = 2) by (destruct (Z.leb_spec cnt 1); lia).
+  rewrite Ec in X. rewrite El1 in X. replace (v_row s + 2 - 1) with (v_row s + 1) in X by lia. rewrite El2 in X.
+  destruct (getl_split2 b (v_row s) (v_row s + 1) _ _ El1 El2 ltac:(lia)) as (pre & mid & post & Eb & Lp & Lm).
+  assert (mid = []) by (destruct mid; [reflexivity|cbn [length] in Lm; lia]). subst mid. cbn [app] in Eb.
+  assert (ER : rows_between b (v_row s) (v_row s + 2) = [body1 ++ [nlc]; body2 ++ [nlc]]).
+  { rewrite Eb, <- Lp. change (pre ++ (body1 ++ [nlc]) :: (body2 ++ [nlc]) :: post) with (pre ++ [body1 ++ [nlc]; body2 ++ [nlc]] ++ post).
+    replace (Z.of_nat (length pre) + 2) with (Z.of_nat (length pre) + Z.of_nat (@length line [body1 ++ [nlc]; body2 ++ [nlc]])) by (cbn [length]; lia).
+    apply rows_between_decomp. }
+  rewrite ER in X. cbn [join_loop] in X. rewrite span_blank_body in X. cbn [snd] in X. fold rest in X.
+  unfold body_of in X. rewrite !removelast_last in X. cbn [app repeat] in X. fold nb in X.
+  assert (Wn : line_wf (nb ++ [nlc])).
+  { apply body_wf. unfold nb. apply Forall_app. split; [exact Hb1|]. apply Forall_app. split.
+    - apply Forall_forall. intros c Hin. apply repeat_spec in Hin. subst c. cbn. lia.
+    - unfold rest. pose proof (span_blank_valid) as _. clear -Hb2. induction Hb2 as [|c r Hc Hr IH]; cbn [span_blank snd]; [constructor|].
+      destruct (is_blankc c); [destruct (span_blank r); exact IH|constructor; assumption]. }
+  replace (v_row s + 2) with (v_row s + Z.of_nat 2) in X by lia.
+  rewrite lbuf_edit_some in X by (cbn; lia). rewrite (split_text_line _ Wn) in X. change (Z.of_nat 2) with 2 in X.
+  match type of X with context [finish rows ?bb _ _ _] => remember bb as b' eqn:Eb' end.
+  assert (Hb' : blen b' = blen b - 1).
+  { rewrite Eb'. unfold set_row, blen in *. rewrite !app_length, firstn_length, skipn_length. cbn [length]. lia. }
+  assert (G : getl b' (v_row s) = Some (nb ++ [nlc])).
+  { rewrite Eb'. unfold getl, set_row. destruct (Z.ltb_spec (v_row s) 0); [lia|]. unfold blen in Hr.
+    rewrite nth_error_app2 by (rewrite firstn_length; lia). rewrite firstn_length, Nat.min_l by lia. rewrite Nat.sub_diag. reflexivity. }
+  inversion X; subst e1. clear X. set (st := vs_pos _ _ _).
+  assert (Hrow : 0 <= v_row st < blen b') by (unfold st; cbn [vs_pos v_row]; lia).
+  rewrite finish_buf, finish_regs, finish_row, finish_off by exact Hrow. unfold st. cbn [vs_pos v_row v_off]. rewrite G.
+  repeat split; try reflexivity; try (exact Eb').
+Qed.
